@@ -323,7 +323,7 @@ def check (params lines : List String) : CaseResult := Id.run do
   -- (and shape `bndskip`: an exclusive gateway and a branch that is never taken)
   -- (and scenario `prewait`: a wait issued before StartAll is not an instruction of the completion model's programs)
   -- (and scenario `partial`: start events fired one by one with StartWith, a wait in between)
-  let pinned := (scen != "free" || !manyMonitors) && shape != "bnd" && shape != "bndskip" && shape != "subfork" && scen != "prewait"
+  let pinned := (scen != "free" || !manyMonitors) && shape != "bnd" && shape != "bndskip" && shape != "subfork" && shape != "subnest" && scen != "prewait"
     && scen != "partial" && scen != "twice" && shape != "forkshort"   -- (forkshort: the forking token is consumed before its forked sibling's first trace — an order the completion model's programs never produce)
   let mut explainedByLateSub := false
   if pinned then
